@@ -33,7 +33,9 @@ base = json.load(open("/root/.vp/BASELINE.json"))
 stable = set(base["stable_pass"])
 d = tempfile.mkdtemp(prefix="bsl")
 j1 = os.path.join(d, "a.xml")
-run(["-n", sys.argv[1] if len(sys.argv) > 1 else "12"], j1)
+# the SIGINT tests signal their own process, which can take an xdist worker (and the tests queued on it) down: they are
+# left to the serial passes below
+run(["-n", sys.argv[1] if len(sys.argv) > 1 else "12", "-k", "not sigint"], j1)
 p, f = parse(j1)
 missing = stable - p
 def ids_of(missing):
